@@ -235,8 +235,12 @@ func genAdmitCase(r *Rng, i int, k AdmitKnobs) *AdmitCase {
 			a.Pods = k.Pods(r)
 		} else {
 			n := r.Intn(9)
-			for j := 0; j < n; j++ {
-				a.Pods = append(a.Pods, genPopPod(r, j, a.ExRC))
+			if r.Bool() {
+				a.Pods = genPopulation(r, n, a.ExRC)
+			} else {
+				for j := 0; j < n; j++ {
+					a.Pods = append(a.Pods, genPopPod(r, j, a.ExRC))
+				}
 			}
 		}
 		if r.Chance(1, 4) && len(a.Pods) > 0 {
@@ -335,4 +339,72 @@ func genPopPod(r *Rng, j int, exRC []string) *corev1.Pod {
 		p.Spec.Containers[0].SecurityContext = &corev1.SecurityContext{Privileged: bp(true)}
 	}
 	return p
+}
+
+// genPopulation: an existing-pod population built from motifs rather than independent pods: groups of 1-4 pods owned by one
+// controller whose members differ in runtime class (exempt / not) and in compliance, in every order (exempt member first,
+// compliant member first, violating member first), pods without an owner, name clashes — then left in motif order or
+// shuffled. What a dry run reports must not depend on which member of a group comes first.
+func genPopulation(r *Rng, n int, exRC []string) []*corev1.Pod {
+	var ps []*corev1.Pod
+	owner := 0
+	for len(ps) < n {
+		size := 1 + r.Intn(4)
+		if size > n-len(ps) {
+			size = n - len(ps)
+		}
+		owned := r.Chance(2, 3)
+		owner++
+		// member kinds: e = exempt runtime class, c = compliant, v = violating
+		kinds := make([]byte, size)
+		for i := range kinds {
+			kinds[i] = "ecvv"[r.Intn(4)]
+		}
+		if size >= 2 && r.Chance(1, 2) {
+			kinds[0] = "ecv"[r.Intn(3)]
+			kinds[1] = "vce"[r.Intn(3)]
+		}
+		for i, k := range kinds {
+			p := genPopPod(r, len(ps), nil)
+			p.Spec.HostNetwork, p.Spec.RuntimeClassName = false, nil
+			p.Spec.Containers[0].SecurityContext = nil
+			p.OwnerReferences = nil
+			if owned {
+				t := true
+				p.OwnerReferences = []metav1.OwnerReference{{UID: types.UID(fmt.Sprintf("ctl-%d", owner)), Controller: &t}}
+			}
+			switch k {
+			case 'e':
+				rc := "rc"
+				if len(exRC) > 0 {
+					rc = pick(r, exRC)
+				}
+				p.Spec.RuntimeClassName = &rc
+				if r.Bool() {
+					p.Spec.HostNetwork = true
+				}
+			case 'v':
+				if r.Bool() {
+					p.Spec.HostNetwork = true
+				} else {
+					p.Spec.Containers[0].SecurityContext = &corev1.SecurityContext{Privileged: bp(true)}
+				}
+				if r.Chance(1, 5) {
+					rc := pickName(r, exRC, "rc") // maybe a near miss of an exempt class
+					p.Spec.RuntimeClassName = &rc
+				}
+			}
+			_ = i
+			ps = append(ps, p)
+		}
+	}
+	if r.Chance(1, 2) {
+		perm := r.Perm(len(ps))
+		out := make([]*corev1.Pod, len(ps))
+		for i, j := range perm {
+			out[i] = ps[j]
+		}
+		ps = out
+	}
+	return ps
 }
